@@ -189,13 +189,18 @@ def run(model, tier):
         'its family and is mirror-consistent (the C02 / C09 rules, re-run here); (c) each fan returns the undisturbed state '
         'at its head xi = u -+ a and the star state (rarefaction relation, rho_star_rarefaction, sound_speed) at its tail '
         'xi = u* -+ a*, for every star pressure. Together: the returned field is a weak solution whatever the root px of the '
-        'star-pressure equation is, hence conservative. The general-EOS solver (numerically integrated fans, bisection on '
-        'spliced curves) is not decided; nor are interpolation errors of the internal grid.')
+        'star-pressure equation is, hence conservative. General-EOS solver (sa/rules/c04_geneos.py): its fans are centred simple '
+        'waves provided the ODE integration is exact -- dsdr_cP / dsdp_cR are the partial derivatives of sie (ideal gas and JWL), '
+        'with d rho/dp, du/dp declared to be the coded right-hand sides the three similarity-form Euler equations hold for the '
+        'placement xi = u + w a with a = sound_speed, and every fan placement of the driver uses the wave sign given to the '
+        'integrator. Its star state (bisection on spliced curves), integration and interpolation errors are not decided.')
     res.rule_text = 'instance = one local condition (equation / jump condition / gluing identity)'
     res.trusted_base = ['CPython ast', 'sympy expand / factor_list', 'value-graph builder',
                         'equivalence weak solution <=> integral conservation (divergence theorem)']
     fans(model, res)
     reuse(model, res)
+    from . import c04_geneos
+    c04_geneos.fans(model, res)
     if res.obligations < 40:
         raise AnalysisError('only %d local conditions analysed (confirmed: 60)' % res.obligations)
     return res
